@@ -323,8 +323,71 @@ theorem LogicTok.text {word sym : String} {i : List Char} (h : LogicTok word sym
       · simp [ws1, hc] at hws
   · exact .inr ⟨k, tag_ok_inv ht⟩
 
+/-! ### at the parser's real entry point
+
+`optExprN (n+1) = ws0 *> logicalOr (exprN n) (optExprN n)` and `exprN n = exprOf (optExprN n)`:
+`expr` passes an accepted `opt_expr` through, and otherwise RECOVERS with the error node.
+`where <expr>` calls `env.pe`, which `parseChars` sets to `exprN (query length + 2)`. -/
+
+/-- the four-level shape -/
+def OrVal (pe optE : P Expr) (v : Expr) : Prop :=
+  ∃ (d0 : Expr) (ds : List Expr), AndVal pe optE d0 ∧
+    v = ds.foldl (fun l y => Expr.logic .or l y) d0 ∧
+    ∀ d ∈ ds, AndVal pe optE d ∨ d = Expr.error
+
+theorem C05_precedence_optEntry (n : Nat) {i : List Char} {e : Nat} {v : Expr} {r : List Char}
+    {e' : Nat} (h : optExprN (n + 1) i e = .ok v r e') :
+    logicalOr (exprN n) (optExprN n) (skipWs i) e = .ok v r e' ∧
+      OrVal (exprN n) (optExprN n) v := by
+  have h' : P.bind' ws0 (fun _ => logicalOr (exprOf (optExprN n)) (optExprN n)) i e
+      = .ok v r e' := h
+  obtain ⟨_, j, ej, hws, h1⟩ := bind_ok_inv h'
+  simp only [ws0, Res.ok.injEq] at hws
+  obtain ⟨-, rfl, rfl⟩ := hws
+  exact ⟨h1, C05_precedence_full _ _ h1⟩
+
+/-- **C05 at `expr`** (what `where`, function arguments, parentheses … call): an accepted `expr`
+is an accepted `opt_expr` — of the four-level shape over the next fuel level — or the error node
+(`opt_expr` failed, one error reported, input resumed at the sync point). -/
+theorem C05_precedence_entry (n : Nat) {i : List Char} {e : Nat} {v : Expr} {r : List Char}
+    {e' : Nat} (h : exprN (n + 1) i e = .ok v r e') :
+    (optExprN (n + 1) i e = .ok v r e' ∧ OrVal (exprN n) (optExprN n) v) ∨
+    (v = Expr.error ∧ ∃ pos e1, optExprN (n + 1) i e = .fail pos e1 ∨
+      optExprN (n + 1) i e = .failure pos e1) := by
+  simp only [exprN, exprOf] at h
+  cases ho : optExprN (n + 1) i e with
+  | ok a j ej =>
+    rw [ho] at h
+    simp only [Res.ok.injEq] at h
+    obtain ⟨rfl, rfl, rfl⟩ := h
+    exact .inl ⟨rfl, (C05_precedence_optEntry n ho).2⟩
+  | fail pos e1 =>
+    rw [ho] at h
+    refine .inr ⟨?_, pos, e1, .inl rfl⟩
+    simp only [resumeAt] at h
+    split at h <;> simp at h
+    exact h.1.symm
+  | failure pos e1 =>
+    rw [ho] at h
+    refine .inr ⟨?_, pos, e1, .inr rfl⟩
+    simp only [resumeAt] at h
+    split at h <;> simp at h
+    exact h.1.symm
+  | panic s => rw [ho] at h; simp at h
+  | unmod w => rw [ho] at h; simp at h
+
+/-- with the concrete fuel `parseChars` gives `where`'s `env.pe` (query length + 2) -/
+theorem C05_precedence_where (cs : List Char) {i : List Char} {e : Nat} {v : Expr}
+    {r : List Char} {e' : Nat} (h : exprN (cs.length + 2) i e = .ok v r e') :
+    OrVal (exprN (cs.length + 1)) (optExprN (cs.length + 1)) v ∨ v = Expr.error := by
+  rcases C05_precedence_entry (cs.length + 1) h with ⟨_, h1⟩ | ⟨h1, _⟩
+  · exact .inl h1
+  · exact .inr h1
+
 end Ag.C05prec
 
+#print axioms Ag.C05prec.C05_precedence_entry
+#print axioms Ag.C05prec.C05_precedence_where
 #print axioms Ag.C05prec.logicElem_ok_inv
 #print axioms Ag.C05prec.andElem_ok_inv
 #print axioms Ag.C05prec.orElem_ok_inv
